@@ -280,3 +280,109 @@ func Verif_C18_close_during_advertisement_pass() {
 	_, own := s.GetServiceInfo("A", "svc")
 	verifapi.Assert("closed-service-not-listed-by-owner", !own)
 }
+
+// Verif_C18_mesh_converges: three real nodes in a line A - B - C (real runProtocol over in-order
+// sessions, real flooding); A owns an advertised service. Histories: the service is opened before or
+// after C has joined; the relay B may be replaced by a fresh node under another name's place (B leaves,
+// B2 - a node that has never heard of the service - takes over the two links) before the service is
+// closed; the service is closed or stays open; advertisement periods pass in between or not. At the end
+// (pending requests served, one more advertisement period) every live node lists A's service iff it
+// is open, with its tags. Timestamps are assumed strictly increasing.
+func Verif_C18_mesh_converges() {
+	verifapi.SelectFork(false)
+	verifapi.StrictClock()
+	verifMeshIDs()
+	m := verifNewMesh([]string{"A", "B", "C"})
+	owner := m.nodes[0].s
+	joinFirst := verifapi.Bool()
+	m.connect(0, 1)
+	m.settle()
+	if joinFirst {
+		m.connect(1, 2)
+		m.settle()
+	}
+	pc, err := owner.ListenPacketAndAdvertise("svc", map[string]string{"k": "v"})
+	verifapi.Assert("listen-ok", err == nil)
+	m.settle()
+	if verifapi.Bool() {
+		m.adPeriod()
+	}
+	if !joinFirst {
+		m.connect(1, 2) // C joins after the advertisement went round
+		m.settle()
+	}
+	replaced := verifapi.Bool()
+	if replaced {
+		// the relay is replaced by a fresh node that has not heard any advertisement yet
+		m.stop(1)
+		m.settle()
+		m.restart(1)
+		m.connect(1, 0)
+		m.settle()
+		m.connect(1, 2)
+		m.settle()
+	}
+	if verifapi.Bool() {
+		m.adPeriod()
+	}
+	closed := verifapi.Bool()
+	if closed {
+		_ = pc.Close()
+		m.settle()
+	}
+	m.adPeriod()
+	verifapi.Cover("history-played")
+	for i, n := range m.nodes {
+		info, ok := n.s.GetServiceInfo("A", "svc")
+		verifapi.Assert("service-listed-iff-open:"+m.names[i], ok == !closed)
+		if ok {
+			verifapi.Assert("listed-with-its-tags", verifapi.All(info.Tags["k"] == "v", info.ConnType == ConnTypeDatagram))
+		}
+	}
+	for i := range m.nodes {
+		m.nodes[i].s.cancelFunc()
+	}
+	verifapi.Quiesce()
+	verifapi.Assert("no-lock-left-held", verifapi.HeldLocks() == 0)
+}
+
+// Verif_C18_owner_hears_its_own_old_messages: in a mesh with a cycle the owner's own floods come back
+// to it over another path. The owner opens an advertised service, (optionally advertises it once more),
+// closes it and opens it again with other tags; then a delayed copy of its own OLD advertisement or OLD
+// withdrawal arrives from a neighbour. The owner keeps listing the service it has open now, with its
+// current tags, and does not relay the old message. Timestamps strictly increasing.
+func Verif_C18_owner_hears_its_own_old_messages() {
+	verifapi.StrictClock()
+	n := verifNetceptor("A")
+	s := n.s
+	cb := n.verifConn("B", 1)
+	n.verifConn("C", 1)
+	pc, err := s.ListenPacketAndAdvertise("svc", map[string]string{"k": "old"})
+	verifapi.Assert("listen-ok", err == nil)
+	verifapi.Quiesce()
+	s.sendServiceAds()
+	verifapi.Quiesce()
+	oldAds := verifTake(cb)
+	verifapi.Assert("first-advertisement-flooded", len(oldAds) >= 1)
+	_ = pc.Close()
+	verifapi.Quiesce()
+	oldWithdrawals := verifTake(cb)
+	verifapi.Assert("withdrawal-flooded", len(oldWithdrawals) == 1)
+	_, err = s.ListenPacketAndAdvertise("svc", map[string]string{"k": "new"})
+	verifapi.Assert("reopen-ok", err == nil)
+	verifapi.Quiesce()
+	verifTake(cb)
+	// the echo: the old advertisement or the old withdrawal, as relayed back by neighbour C
+	echo := oldWithdrawals[0]
+	if verifapi.Bool() {
+		echo = oldAds[len(oldAds)-1]
+	}
+	_ = s.handleServiceAdvertisement(echo, "C")
+	verifapi.Quiesce()
+	verifapi.Cover("echo-handled")
+	info, ok := s.GetServiceInfo("A", "svc")
+	verifapi.Assert("owner-still-lists-its-open-service-with-current-tags", verifapi.All(ok, info != nil, info.Tags["k"] == "new"))
+	nRelayed, _ := verifAdOutputs(cb)
+	verifapi.Assert("old-message-about-an-own-service-not-relayed", nRelayed == 0)
+	verifapi.Assert("no-lock-left-held", verifapi.HeldLocks() == 0)
+}
